@@ -304,3 +304,22 @@ MUTANTS += [
     dict(id='c01-outlier-penalty-dropped', props=['C01', 'C02'], file=LIM,
          old="        errors += _Limit._add_error_to_outliers(der)\n", new="        errors += 0 * _Limit._add_error_to_outliers(der)\n"),
 ]
+
+MUTANTS += [
+    dict(id='c02-t-factor-tiny', props=['C02'], file=EXT,
+         old="        fact = np.maximum(12.7062047361747 * np.sqrt(cov1), EPS * 10.)", new="        fact = np.maximum(12.7062047361747e-6 * np.sqrt(cov1), EPS * 10.)"),
+    dict(id='c02-dea3-abserr-zeroed', props=['C02', 'C13'], file=EXT,
+         old="    abserr = err1 + err2 + np.where(converged, tol2 * 10, np.abs(result - e_2))", new="    abserr = (err1 + err2 + np.where(converged, tol2 * 10, np.abs(result - e_2))) * 1e-8"),
+    dict(id='c02-final-step-shifted', props=['C02'], file=LIM,
+         old="        final_step = steps.flat[idx].reshape(shape)", new="        final_step = (steps.flat[idx] * 1e-3).reshape(shape)"),
+    dict(id='c02-fvalue-from-shifted-point', props=['C02'], file=CORE,
+         old="            return derivative, self.info(f_xi, *info)", new="            return derivative, self.info(f_xi * (1 + 1e-15), *info)"),
+    dict(id='c02-err-negative', props=['C02'], file=LIM,
+         old="        err = errors.flat[idx].reshape(shape)", new="        err = -errors.flat[idx].reshape(shape)"),
+    dict(id='c02-err-from-first-row', props=['C02'], file=LIM,
+         old="        err = errors.flat[idx].reshape(shape)", new="        err = errors.flat[idx * 0].reshape(shape) * 1e-9"),
+    dict(id='c02-gradient-estimate-of-first-entry', props=['C02'], file=CORE,
+         old="            return result[0].squeeze(), result[1]", new="            return result[0].squeeze(), result[1]._replace(error_estimate=result[1].error_estimate.ravel()[:1])"),
+    dict(id='c02-index-offset', props=['C02'], file=LIM,
+         old="        return der.flat[idx].reshape(shape), _Limit.info(err, final_step, idx)", new="        return der.flat[idx].reshape(shape), _Limit.info(err, final_step, idx + der.size)"),
+]
